@@ -6,7 +6,7 @@ set -u
 ID=$1; PKG=$2; shift 2
 WT=/tmp/recheck.$ID
 rm -rf $WT; git -C /repo worktree add -q $WT HEAD || exit 3
-cd $WT; git apply /verif/seeded/$ID/patch.diff || { echo APPLY-FAILED; git -C /repo worktree remove --force $WT; exit 3; }
+cd $WT; git apply /verif/seeded/$ID/patch.diff 2>/dev/null || patch -p1 -s < /verif/seeded/$ID/patch.diff || { echo APPLY-FAILED; git -C /repo worktree remove --force $WT; exit 3; }
 (cd $WT/$PKG && go test -vet=off -count=1 "$@" . 2>&1 | grep -E "^--- FAIL|^FAIL|^ok|^panic" )
 RC=$?
 cd /; git -C /repo worktree remove --force $WT
